@@ -221,6 +221,8 @@ type Config struct {
 	InjectedFields      map[string][]Injected
 	ImportPathOverrides map[string]string
 	CustomTypes         map[string]string
+	// SchemaTypes mirrors the schema_types option (per-field Terraform type override).
+	SchemaTypes map[string]SchemaType
 }
 
 // Clone returns a deep copy of the configuration.
@@ -258,6 +260,12 @@ func (c *Config) Clone() *Config {
 	if c.DurationType != nil {
 		t := *c.DurationType
 		d.DurationType = &t
+	}
+	if c.SchemaTypes != nil {
+		d.SchemaTypes = map[string]SchemaType{}
+		for k, v := range c.SchemaTypes {
+			d.SchemaTypes[k] = v
+		}
 	}
 	if c.InjectedFields != nil {
 		d.InjectedFields = map[string][]Injected{}
